@@ -17,14 +17,15 @@ import (
 
 // respScenario is a generated server response with the callbacks that observe it.
 type respScenario struct {
-	cf      *Conf
-	cols    []ColSpec
-	packets []*SPacket
-	auto    bool            // Results.Auto() instead of typed targets
-	have    map[string]bool // which callbacks are present
-	rec     *Recorder
-	res     proto.Results
-	query   ch.Query
+	cf       *Conf
+	cols     []ColSpec
+	packets  []*SPacket
+	auto     bool            // Results.Auto() instead of typed targets
+	noTarget bool            // Query.Result is nil: only zero-row blocks may arrive
+	have     map[string]bool // which callbacks are present
+	rec      *Recorder
+	res      proto.Results
+	query    ch.Query
 }
 
 // drawResponse draws a response script from the grammar of C03.
@@ -40,6 +41,12 @@ func drawResponse(c *choice.Stream, cf *Conf, maxPackets int) *respScenario {
 	}
 	for _, cb := range []string{"result", "progress", "profile", "events", "event", "logs", "log"} {
 		rs.have[cb] = c.Bool("have."+cb, 3, 4)
+	}
+	// a query that binds no result at all (DDL, or a caller interested only in
+	// telemetry): the server still sends header blocks, which must be skipped
+	rs.noTarget = c.Bool("res.none", 1, 10)
+	if rs.noTarget {
+		rs.have["result"] = false
 	}
 	n := c.Range("resp.n", 0, maxPackets)
 	nonEmpty := 0
@@ -60,11 +67,18 @@ func drawResponse(c *choice.Stream, cf *Conf, maxPackets int) *respScenario {
 					rows = 1
 				}
 			}
+			if rs.noTarget {
+				rows = 0
+			}
 			if rows > 0 {
 				nonEmpty++
 			}
 			rs.packets = append(rs.packets, &SPacket{Kind: "data", Block: DrawBlock(c, rs.cols, rows)})
 		case 1:
+			if rs.noTarget {
+				rs.packets = append(rs.packets, &SPacket{Kind: "totals", Block: DrawBlock(c, rs.cols, 0)})
+				break
+			}
 			nonEmpty++
 			rs.packets = append(rs.packets, &SPacket{Kind: "totals", Block: DrawBlock(c, rs.cols, 1)})
 		default:
@@ -82,7 +96,9 @@ func drawResponse(c *choice.Stream, cf *Conf, maxPackets int) *respScenario {
 	}
 	// the query
 	rs.query.Body = "SELECT"
-	if rs.auto {
+	if rs.noTarget {
+		rs.query.Result = nil
+	} else if rs.auto {
 		rs.query.Result = rs.res.Auto()
 	} else {
 		res, _ := ResultTargets(rs.cols)
